@@ -448,7 +448,7 @@ func genVerifyCase(t *rapid.T) VerifyCase {
 
 var specC12Verify = Register(&Spec[VerifyCase]{
 	Prop: "C12", Name: "verify",
-	Rule: "(content, recorded hash) pairs; the entry comes from a Checksums-Sha256 / Checksums-Sha512 field parsed into []SHA256FileHash / []SHA512FileHash, from control.BestChecksums with only the 256 field, only the 512 field or both present (via Checksums()), or from FileHashFromHasher over any of the four hashers (md5, sha1, sha256, sha512); the recorded hash is the true digest, the digest of other content, one flipped nibble, truncated (even / odd length; also cut by the zero byte a digest happens to end in), extended by zero or other bytes, the other algorithm's digest of the same content, or upper-case hex; the entry's Size column equals the stream length or is off by -1, +1, -5, +100 or far less, and in some cases the stream is the recorded content followed by 1..4096 further bytes. Oracle (the digest decides, not the size column; parsing the line into a variable that held other entries gives the same entry, a copy of the decoded struct kept by the caller still shows its own paragraph's entry after the next paragraph has been decoded into the same variable, a rejected line leaves the variable empty; once Verifier() has returned, the entry variable is overwritten with another entry - the verdict is about the entry the verifier was made from): the entry's Algorithm is that of the field it came from; writing the content in chunks and Close() returns nil iff digest_{entry algorithm}(content) == recorded hash (a malformed hex string may already be rejected by Verifier()). An entry built from an md5 or sha1 hasher is an entry built from a hasher like any other (Verifier() used to end the process with log.Fatalf for it - F52); md5/sha1 entries parsed from Files / Checksums-Sha1 fields are not named by the statement and not generated. Non-trivial: hash wrong in exactly one nibble, right under the wrong algorithm, or true with content in >= 2 chunks; distinct by case.",
+	Rule: "(content, recorded hash) pairs; the entry comes from a Checksums-Sha256 / Checksums-Sha512 field (a third of the documents end without a line end) parsed into []SHA256FileHash / []SHA512FileHash, from control.BestChecksums with only the 256 field, only the 512 field or both present (via Checksums()), or from FileHashFromHasher over any of the four hashers (md5, sha1, sha256, sha512); the recorded hash is the true digest, the digest of other content, one flipped nibble, truncated (even / odd length; also cut by the zero byte a digest happens to end in), extended by zero or other bytes, the other algorithm's digest of the same content, or upper-case hex; the entry's Size column equals the stream length or is off by -1, +1, -5, +100 or far less, and in some cases the stream is the recorded content followed by 1..4096 further bytes. Oracle (the digest decides, not the size column; parsing the line into a variable that held other entries gives the same entry, a copy of the decoded struct kept by the caller still shows its own paragraph's entry after the next paragraph has been decoded into the same variable, a rejected line leaves the variable empty; once Verifier() has returned, the entry variable is overwritten with another entry - the verdict is about the entry the verifier was made from): the entry's Algorithm is that of the field it came from; writing the content in chunks and Close() returns nil iff digest_{entry algorithm}(content) == recorded hash (a malformed hex string may already be rejected by Verifier()). An entry that names an algorithm the library does not implement (sha384, sha224, sha512-256, sha3-*, blake2b, md4, ripemd160, crc32) and records the content's sha256 / sha512 / md5 / sha1 digest never gets a verifier that accepts the content. An entry built from an md5 or sha1 hasher is an entry built from a hasher like any other (Verifier() used to end the process with log.Fatalf for it - F52); md5/sha1 entries parsed from Files / Checksums-Sha1 fields are not named by the statement and not generated. Non-trivial: hash wrong in exactly one nibble, right under the wrong algorithm, or true with content in >= 2 chunks; distinct by case.",
 	Check: func(c VerifyCase, r *Recorder) error {
 		algo := "sha256"
 		switch c.Source {
@@ -523,11 +523,17 @@ var specC12Verify = Register(&Spec[VerifyCase]{
 			r.Sample(map[string]interface{}{"len": len(c.Data), "source": c.Source, "recorded": c.Recorded, "hash": rec})
 		}
 		line := fmt.Sprintf(" %s %d file.tar.gz\n", rec, recSize)
+		docEnd := func(doc string) string {
+			if (c.Which+len(c.Data))%3 == 0 {
+				return strings.TrimSuffix(doc, "\n") // a file whose last byte is not a line end
+			}
+			return doc
+		}
 		var fh control.FileHash
 		switch c.Source {
 		case "field256":
 			var s sha256Field
-			if err := control.Unmarshal(&s, strings.NewReader("Checksums-Sha256:\n"+line)); err != nil || len(s.Sums) != 1 {
+			if err := control.Unmarshal(&s, strings.NewReader(docEnd("Checksums-Sha256:\n"+line))); err != nil || len(s.Sums) != 1 {
 				return errf("cannot parse Checksums-Sha256 %q: %v", line, err)
 			}
 			fh = s.Sums[0].FileHash
@@ -563,7 +569,7 @@ var specC12Verify = Register(&Spec[VerifyCase]{
 			}
 		case "field512":
 			var s sha512Field
-			if err := control.Unmarshal(&s, strings.NewReader("Checksums-Sha512:\n"+line)); err != nil || len(s.Sums) != 1 {
+			if err := control.Unmarshal(&s, strings.NewReader(docEnd("Checksums-Sha512:\n"+line))); err != nil || len(s.Sums) != 1 {
 				return errf("cannot parse Checksums-Sha512 %q: %v", line, err)
 			}
 			fh = s.Sums[0].FileHash
@@ -585,6 +591,7 @@ var specC12Verify = Register(&Spec[VerifyCase]{
 				doc = "Checksums-Sha256:\n" + line + "Checksums-Sha512:\n" + fmt.Sprintf(" %s %d file.tar.gz\n", trueDigest("sha512", c.Data), recSize)
 			}
 			var b best
+			doc = docEnd(doc)
 			if err := control.Unmarshal(&b, strings.NewReader(doc)); err != nil {
 				return errf("cannot parse %q: %v", doc, err)
 			}
@@ -687,6 +694,19 @@ var specC12Verify = Register(&Spec[VerifyCase]{
 		}
 		if !wantOK && cerr == nil {
 			return errf("verifier (%s entry from %s) accepted content although recorded hash %q != true %s digest %q (%s)", fh.Algorithm, c.Source, rec, algo, trueHex, c.Recorded)
+		}
+		// an entry that names an algorithm the library has no implementation of (a Checksums-Sha384
+		// field of tomorrow, read by the caller's own code): whatever is recorded - the SHA-256 or
+		// SHA-512 of the content, say - is not the content's digest under THAT algorithm
+		other := []string{"sha384", "sha224", "sha512-256", "sha3-256", "sha3-512", "blake2b", "md4", "ripemd160", "crc32"}[(len(c.Data)+c.Which)%9]
+		for _, known := range []string{"sha256", "sha512", "md5", "sha1"} {
+			odd := control.FileHash{Algorithm: other, Hash: trueDigest(known, c.Data), Size: int64(len(c.Data)), Filename: "file.tar.gz"}
+			if ov, err := odd.Verifier(); err == nil {
+				ov.Write(c.Data)
+				if ov.Close() == nil {
+					return errf("an entry naming the algorithm %q and recording the content's %s digest got a verifier that accepts the content", other, known)
+				}
+			}
 		}
 		return nil
 	},
